@@ -35,8 +35,8 @@ def handlers : List (String → List String → Option String) := [
   Heap.handle?,
   Address.handle?,
   VmStack.handle?,
-  Cost.handle?
-  Tl.handle?
+  Cost.handle?,
+  Tl.handle?,
   Hashmap.handle?
 ]
 
